@@ -328,6 +328,8 @@ class Data3D(Block):
         return len(self._tracks)
 
     def __eq__(self, other) -> bool:
+        if not isinstance(other, Data3D):
+            return False
         buff1 = BytesIO()
         buff2 = BytesIO()
         self._write(buff1)
